@@ -213,7 +213,7 @@ fn worker<SubProblem: Ord + Send + fmt::Debug, Solution: Send, Score: Ord + Copy
         if let Some(PendingProblem(subproblem, parent_score)) = shared_state.pending_nodes.pop() {
             // Only consider this subproblem, if the parent node's solution was better then best solution known so
             // far. I.e. bound branch if score will be worse then best known feasible solution.
-            if parent_score > shared_state.best_score {
+            if shared_state.best_result.is_none() || parent_score > shared_state.best_score {
                 shared_state.busy_threads += 1;
 
                 // Unlock shared_state and solve subproblem
@@ -240,7 +240,7 @@ fn worker<SubProblem: Ord + Send + fmt::Debug, Solution: Send, Score: Ord + Copy
                             "Yes! We found a feasible solution with score {}: {}",
                             score, subproblem_formatted
                         );
-                        if score > shared_state.best_score {
+                        if shared_state.best_result.is_none() || score > shared_state.best_score {
                             debug!(
                                 "Wow, this is the best solution, we found so far. Let's store it."
                             );
